@@ -681,12 +681,12 @@ object_t *clone_object (const char *str1, int num_arg) {
   reference_prog (ob->prog, "clone_object");
   DEBUG_CHECK (!current_object, "clone_object() from no current_object !\n");
 
-  init_object (new_ob);
-
   new_ob->next_all = obj_list;
   obj_list = new_ob;
   opt_info (1, "cloning object /%s", obj_list->name);
   enter_object_hash (new_ob);	/* Add name to fast object lookup table */
+  /* as in load_object(): only now, so that an error in the master's creator_file() does not lose the object */
+  init_object (new_ob);
   call_create (new_ob, num_arg);
   command_giver = save_command_giver;
   /* Never know what can happen ! :-( */
